@@ -1,5 +1,7 @@
 (* C20 — Insertion cost estimates equal true objective changes for additive objectives. *)
-From VRP Require Import Base.Tac Model.Core Spec.Feasible Model.Eval Model.Objectives Model.ObjectivesX Proofs.CoreTimeP Proofs.ObjectivesP Proofs.ObjectivesXP.
+From VRP Require Import Base.Tac Model.CostOrder Model.Reduce Model.Core Spec.Feasible Model.Eval Model.Objectives Model.ObjectivesX Model.Reduce2 Model.GoalSel
+  Proofs.CoreTimeP Proofs.ObjectivesP Proofs.ObjectivesXP Proofs.Reduce2P Proofs.GoalSelP.
+From VRP Require Model.Routing Model.GoalSelTD Proofs.GoalSelTDP.
 
 (* total travelled distance (any time-independent matrix, any position, open or closed, empty or not):
    quote of estimate_leg = distance of the tour after the insertion - distance it contributed before *)
@@ -168,3 +170,233 @@ Proof.
   split; [vm_compute; auto|]. repeat (split; [reflexivity|]).
   eexists. split; [vm_compute; reflexivity|]. vm_compute. split; repeat constructor; discriminate.
 Qed.
+
+(* ====================================================================================================================================
+   GOAL LEVEL (Model/GoalSel.v, sub-stream c20_sel): every additive-looking objective feature, the InsertionCost vector per layer order,
+   the exhaustive evaluator over routes x jobs with vector costs, and the CONSEQUENCE clause "so the cheapest quoted insertion really is
+   the cheapest".
+   ==================================================================================================================================== *)
+
+(* "the cost the evaluator quotes equals the actual change of that objective's value", for the whole goal at once: for every goal whose
+   layers are single objectives, Sum groups or WeightedSum groups of
+     - minimize-unassigned with ANY unassigned-job estimator (default 1, the pragmatic cluster-size / break-value weights, ...),
+     - minimize tours, maximize tours,
+     - maximize value with any job-only or actor-dependent read function,
+     - distance (any matrix),
+     - cost (vehicle + driver rates, per-vehicle rates) when this route's tour has no waiting before and after and the time rates are uniform,
+   for every state (used routes with jobs, unused registry tours), every offered route k (an unused one is pushed as a new route: fixed
+   costs and the tours layer are quoted at route level), every leg idx and every job activity x: the vector of realised changes of the
+   layer values (recreate step with the insertion against the one without) IS the quoted vector
+   `goal.estimate(activity) + goal.estimate(route)`, component by component in layer order — provided the solution already has a route
+   or has no ignored jobs (the complement is finding C20-F1, next theorem) *)
+Theorem C20_goal_quote_vector_exact : forall dur dist g s free k jid idx x,
+  state_ok s free -> cand_ok s free k jid idx x ->
+  goal_ok dur g (nth k (gs_routes s ++ free) dummy_route) idx x ->
+  (gs_routes s <> [] \/ gs_ignored s = []) ->
+  map (fun l => layer_value dist l (gfinalize (gapply dur s free k jid idx x)) - layer_value dist l (gfinalize s)) g
+  = icost_add (goal_est_act dur dist g (nth k (gs_routes s ++ free) dummy_route) idx x)
+              (goal_est_route g (nth k (gs_routes s ++ free) dummy_route) jid).
+Proof. exact goal_quote_vector_exact. Qed.
+
+Theorem C20_goal_quote_vector_refuted_ignored :
+  exists dur dist g s free k jid idx x,
+    state_ok s free /\ cand_ok s free k jid idx x /\ goal_ok dur g (nth k (gs_routes s ++ free) dummy_route) idx x /\
+    map (fun l => layer_value dist l (gfinalize (gapply dur s free k jid idx x)) - layer_value dist l (gfinalize s)) g
+    <> icost_add (goal_est_act dur dist g (nth k (gs_routes s ++ free) dummy_route) idx x)
+                 (goal_est_route g (nth k (gs_routes s ++ free) dummy_route) jid).
+Proof. exact goal_quote_vector_refuted_ignored. Qed.
+
+(* ... and without that proviso the realised vector is the quoted vector plus a shift that depends on the state only, never on the
+   candidate (ignored jobs stop being counted by the unassigned objective once the first route exists): the ORDER of candidates by quote
+   is their order by realised change in every state *)
+Theorem C20_goal_realised_is_quote_plus_candidate_independent_shift : forall dur dist g s free k jid idx x,
+  state_ok s free -> cand_ok s free k jid idx x ->
+  goal_ok dur g (nth k (gs_routes s ++ free) dummy_route) idx x ->
+  map (fun l => layer_value dist l (gfinalize (gapply dur s free k jid idx x)) - layer_value dist l (gfinalize s)) g
+  = icost_add (icost_add (goal_est_act dur dist g (nth k (gs_routes s ++ free) dummy_route) idx x)
+                         (goal_est_route g (nth k (gs_routes s ++ free) dummy_route) jid)) (goal_shift g s).
+Proof. exact goal_delta. Qed.
+
+(* the scan of analyze_insertion_in_route(_leg) with vector costs, started from nothing: a failure when it enumerates no accepted
+   candidate, otherwise the LEFTMOST lexicographic minimum of what it enumerates (every accepted leg x place x window up to the first
+   `stopped` verdict) *)
+Theorem C20_vector_scan_is_leftmost_minimum : forall dur dist g k r j rc,
+  let run := fun known => gresult_of k j (vanalyze (gev_act dur r) (gest_act dur dist g r) (gr_closed r) (gr_tour r) j rc known) in
+  let l := venum (gev_act dur r) (gest_act dur dist g r) (gr_closed r) (gr_tour r) j rc in
+  (l = [] /\ exists f, run None = RFailure f) \/
+  (exists m, In m l /\ run None = RSuccess (vc_vec m, (k, s_id j, vc_idx m, vc_pl m)) /\
+             forall e, In e l -> vlt (vc_vec e) (vc_vec m) = false).
+Proof. exact grun_none. Qed.
+
+(* ... started from best_known_cost it honours it (the hypothesis `respects_known` of C15's theorems, here for vector costs), and with
+   activity-level vectors >= 0 the route-level vector is a lower bound: the pair satisfies C15's cell_ok *)
+Theorem C20_pair_satisfies_c15_cell_ok : forall dur dist g skip k r j,
+  (forall idx x, vlt (goal_est_act dur dist g r idx x) [] = false) ->
+  cell_ok gsucc (list Z) gcost vlt (gcell dur dist g skip k r j).
+Proof. exact gcell_ok. Qed.
+
+(* CONSEQUENCE, one (route, job) pair (eval_job_insertion_in_route with alternative = failure), no further hypothesis: the selected
+   insertion is one of the enumerated candidates and none of them realises a lexicographically smaller change of the goal's values *)
+Theorem C20_pair_selected_is_cheapest : forall dur dist g skip s free jobs k r j cost k0 jid0 idx0 pl0,
+  state_ok s free -> jobs_ok s jobs -> In (k, r) (offered s free) -> In j jobs ->
+  full_of gsucc (list Z) (gcell dur dist g skip k r j) = RSuccess (cost, (k0, jid0, idx0, pl0)) ->
+  In (idx0, pl0, cost) (gcands dur dist g skip r j) /\ k0 = k /\ jid0 = s_id j /\
+  forall e, In e (gcands dur dist g skip r j) ->
+    goal_ok dur g r (vc_idx e) (act_of_place j (vc_pl e)) -> goal_ok dur g r idx0 (act_of_place j pl0) ->
+    vlt (grealised dur dist g s free k j e) (grealised dur dist g s free k j (idx0, pl0, cost)) = false.
+Proof. exact pair_selected_minimises_realised. Qed.
+
+(* CONSEQUENCE, the whole grid routes x jobs under EVERY schedule of the parallel fold (PositionInsertionEvaluator::evaluate_all),
+   for any goal: it holds up to the prune-by-route-cost shortcut, i.e. under C15's lower-bound hypothesis (activity-level vectors >= 0),
+   for the candidates whose layers are claimed exact (goal_ok: for cost layers the no-waiting premise) *)
+Theorem C20_grid_selected_is_cheapest : forall dur dist g skip s free jobs tree cost k0 jid0 idx0 pl0,
+  state_ok s free -> jobs_ok s jobs ->
+  (forall kr, In kr (offered s free) -> act_nonneg dur dist g (snd kr)) ->
+  pflatten tree = cartesian_product (offered s free) jobs ->
+  gselect dur dist g skip tree = RSuccess (cost, (k0, jid0, idx0, pl0)) ->
+  exists r0 j0, In (k0, r0) (offered s free) /\ In j0 jobs /\ s_id j0 = jid0 /\
+    In (idx0, pl0, cost) (gcands dur dist g (skip r0 j0) r0 j0) /\
+    forall k r j e, In (k, r) (offered s free) -> In j jobs -> In e (gcands dur dist g (skip r j) r j) ->
+      goal_ok dur g r (vc_idx e) (act_of_place j (vc_pl e)) -> goal_ok dur g r0 idx0 (act_of_place j0 pl0) ->
+      vlt (grealised dur dist g s free k j e) (grealised dur dist g s free k0 j0 (idx0, pl0, cost)) = false.
+Proof. exact grid_selected_minimises_realised. Qed.
+
+(* CONSEQUENCE at full strength for the additive objectives the property names (unassigned, tours, value, distance; any layering, Sum /
+   WeightedSum groups with non-negative weights) over a non-negative distance matrix with the triangle inequality: over ALL (job, tour,
+   position, place, window) combinations the evaluator enumerates, the selected one minimises the realised lexicographic change.
+   No hypothesis about ignored jobs is needed (C20-F1 shifts every candidate alike). *)
+Theorem C20_additive_selected_is_cheapest : forall dur dist,
+  (forall a b, 0 <= dist a b) -> (forall a b c, dist a c <= dist a b + dist b c) ->
+  forall g skip s free jobs tree cost k0 jid0 idx0 pl0,
+  state_ok s free -> jobs_ok s jobs -> goal_additive g -> weights_nonneg g ->
+  pflatten tree = cartesian_product (offered s free) jobs ->
+  gselect dur dist g skip tree = RSuccess (cost, (k0, jid0, idx0, pl0)) ->
+  exists r0 j0, In (k0, r0) (offered s free) /\ In j0 jobs /\ s_id j0 = jid0 /\
+    In (idx0, pl0, cost) (gcands dur dist g (skip r0 j0) r0 j0) /\
+    forall k r j e, In (k, r) (offered s free) -> In j jobs -> In e (gcands dur dist g (skip r j) r j) ->
+      vlt (grealised dur dist g s free k j e) (grealised dur dist g s free k0 j0 (idx0, pl0, cost)) = false.
+Proof. exact additive_selected_is_cheapest. Qed.
+
+(* ... and WITHOUT the triangle inequality it is false of the faithful model: a non-negative matrix, goal [unassigned, tours, distance],
+   one route, two jobs; the sequential fold selects quote [-1; 0; -80] although an enumerated candidate of the second job has quote and
+   realised change [-1; 0; -98] — the pair was never evaluated because the accumulated cost was already below its route-level vector
+   (finding C15-F1; for C20 recorded as C20-F2) *)
+Theorem C20_selected_is_cheapest_refuted_under_prune :
+  exists dur dist g s free jobs cost k0 j0 idx0 pl0 k r j e,
+    (forall a b, 0 <= dist a b) /\ state_ok s free /\ jobs_ok s jobs /\ goal_additive g /\ weights_nonneg g /\
+    gselect dur dist g (fun _ _ => false) (PLeaf (cartesian_product (offered s free) jobs)) = RSuccess (cost, (k0, s_id j0, idx0, pl0)) /\
+    In j0 jobs /\ In (k, r) (offered s free) /\ In j jobs /\ In e (gcands dur dist g false r j) /\
+    vlt (grealised dur dist g s free k j e) (grealised dur dist g s free k0 j0 (idx0, pl0, cost)) = true.
+Proof. exact selected_is_cheapest_refuted_under_prune. Qed.
+
+(* non-vacuity: a metric matrix, one used route and one unused vehicle, two jobs with alternative places / windows, an ignored job, goal
+   [unassigned (weighted estimator); Sum (tours, value); distance]: all hypotheses hold, a two-leaf schedule selects quote [-3; -2; 20],
+   nine candidates are enumerated *)
+Theorem C20_nonvacuous_selected_is_cheapest :
+  (forall a b, 0 <= nvs_dist a b) /\ (forall a b c, nvs_dist a c <= nvs_dist a b + nvs_dist b c) /\
+  state_ok nvs_sol [nvs_free] /\ jobs_ok nvs_sol nvs_jobs /\ goal_additive nvs_goal /\ weights_nonneg nvs_goal /\
+  gselect nvs_dist nvs_dist nvs_goal pr_noskip (PNode (PLeaf (firstn 3 (cartesian_product (offered nvs_sol [nvs_free]) nvs_jobs)))
+                                                     (PLeaf (skipn 3 (cartesian_product (offered nvs_sol [nvs_free]) nvs_jobs))))
+  = RSuccess ([-3; -2; 20], (0%nat, 91, 0%nat, (0%nat, 4, 0, 0, INF))) /\
+  length (flat_map (fun p : (nat * groute) * single => gcands nvs_dist nvs_dist nvs_goal false (snd (fst p)) (snd p))
+                   (cartesian_product (offered nvs_sol [nvs_free]) nvs_jobs)) = 9%nat.
+Proof. exact consequence_nonvacuous. Qed.
+
+(* ---------- the cost clause "whenever the tour contains no waiting time before and after": the hypothesis is tight ---------- *)
+
+(* WITH waiting the quote differs (documented behaviour of the waiting credit, not a finding): a stop that waits 50 is reached 80 later,
+   the tour ends 30 later (realised 30), the quote is 0 *)
+Theorem C20_cost_quote_with_waiting_refuted :
+  exists dur dist v t idx x,
+    (idx < length t)%nat /\ sched_ok dur t /\ v_ptime v = v_psvc v /\ v_psvc v = v_pwait v /\
+    (has_jobs t = false -> (length t <= 2)%nat /\ idx = 0%nat) /\ ~ no_wait t /\
+    cost_fitness dist v (reschedule dur (insert_after t idx x)) - route_cost dist v t <> cost_quote dur dist v t idx x.
+Proof. exact cost_quote_with_waiting_refuted. Qed.
+
+(* ... but it is always a LOWER bound of the realised change (vehicle costs; uniform, non-negative time rates; the recorded schedule is
+   the tour's own; only the last activity may be the end, which does not wait), whatever the waiting before or after *)
+Theorem C20_cost_quote_lower_bound_with_waiting : forall dur dist v t idx x,
+  (idx < length t)%nat -> sched_ok dur t ->
+  v_ptime v = v_psvc v -> v_psvc v = v_pwait v -> 0 <= v_ptime v ->
+  (has_jobs t = false -> (length t <= 2)%nat /\ idx = 0%nat) ->
+  terminals_punctual (tl t) -> jobs_inside t ->
+  cost_quote dur dist v t idx x <= cost_fitness dist v (reschedule dur (insert_after t idx x)) - route_cost dist v t.
+Proof. exact cost_quote_le_realised. Qed.
+
+(* ... and exact, waiting or not, for the first insertion into an unused tour and for an insertion behind the last activity of an open tour *)
+Theorem C20_cost_quote_exact_new_tour_or_last_leg : forall dur dist v t idx x,
+  (idx < length t)%nat -> sched_ok dur t ->
+  v_ptime v = v_psvc v -> v_psvc v = v_pwait v ->
+  (has_jobs t = false -> (length t <= 2)%nat /\ idx = 0%nat) ->
+  (has_jobs t = false \/ skipn (S idx) t = []) ->
+  cost_fitness dist v (reschedule dur (insert_after t idx x)) - route_cost dist v t = cost_quote dur dist v t idx x.
+Proof. exact cost_quote_exact_new_tour_or_last. Qed.
+
+(* the lower bound does NOT extend to a driver who is paid for waiting: the credit is priced with the vehicle's waiting rate only *)
+Theorem C20_cost_quote_lower_bound_driver_refuted :
+  exists dur dist v d t idx x,
+    (idx < length t)%nat /\ sched_ok dur t /\
+    v_ptime v = v_psvc v /\ v_psvc v = v_pwait v /\ dc_ptime d = dc_psvc d /\ dc_psvc d = dc_pwait d /\ 0 <= v_ptime v /\ 0 <= dc_ptime d /\
+    terminals_punctual (tl t) /\ jobs_inside t /\
+    cost_fitness_d dist v d (reschedule dur (insert_after t idx x)) - route_cost_d dist v d t < cost_quote_d dur dist v d t idx x.
+Proof. exact cost_quote_lower_bound_driver_refuted. Qed.
+
+(* ---------- objectives of the default goal family that are NOT additive (outside the property's list; modelled, not claimed) ---------- *)
+
+(* duration objective (estimate_leg over durations): even without waiting the quote misses the service time of the new activity *)
+Theorem C20_duration_quote_refuted :
+  exists dur t idx x,
+    (idx < length t)%nat /\ sched_ok dur t /\ no_wait t /\ no_wait (reschedule dur (insert_after t idx x)) /\ has_jobs t = true /\
+    total_duration (reschedule dur (insert_after t idx x)) - total_duration t <> leg_estimate dur t idx x.
+Proof. exact duration_quote_refuted. Qed.
+(* ... exactly by that amount *)
+Theorem C20_duration_quote_plus_service_nowait : forall dur t idx x,
+  (idx < length t)%nat -> sched_ok dur t -> no_wait t -> no_wait (reschedule dur (insert_after t idx x)) ->
+  (has_jobs t = false -> (length t <= 2)%nat /\ idx = 0%nat) ->
+  (has_jobs t = false -> sum_svc (tl t) = 0) ->
+  total_duration (reschedule dur (insert_after t idx x)) - (if has_jobs t then total_duration t else 0)
+  = leg_estimate dur t idx x + a_svc x.
+Proof. exact duration_quote_plus_service_nowait. Qed.
+
+(* arrival-time objective: the quote is the actor's shift start, the objective the mean arrival at the tour ends *)
+Theorem C20_arrival_quote_refuted :
+  exists dur dist s free k jid idx x,
+    state_ok s free /\ cand_ok s free k jid idx x /\
+    feat_fit_den FMinArrival (gfinalize s) = 1 /\ feat_fit_den FMinArrival (gfinalize (gapply dur s free k jid idx x)) = 1 /\
+    feat_fitness dist FMinArrival (gfinalize (gapply dur s free k jid idx x)) - feat_fitness dist FMinArrival (gfinalize s)
+    <> feat_est_route FMinArrival (nth k (gs_routes s ++ free) dummy_route) jid
+       + feat_est_act dur dist FMinArrival (nth k (gs_routes s ++ free) dummy_route) idx x.
+Proof. exact arrival_quote_refuted. Qed.
+
+(* the pragmatic estimators: a clustered job weighs its cluster size, a break the configured break value (default 1), any other job 1;
+   a merged job carries the sum of the two values (so its value quote is the sum of the two quotes) *)
+Theorem C20_pragmatic_unassigned_estimator : forall breaks a,
+  prag_unassigned_est breaks a =
+  match ja_clusters a with
+  | Some n => Z.of_nat n
+  | None => if ja_break a then match breaks with Some b => b | None => 1 end else 1
+  end.
+Proof. exact prag_unassigned_est_cases. Qed.
+Theorem C20_merged_job_value_is_sum : forall a b, merged_value a b = a + b.
+Proof. exact merged_value_sum. Qed.
+
+(* ---------- "with time-independent routing": time-dependent routing is excluded, and has to be ---------- *)
+
+(* over the routing-provider model of C16 (Model/Routing.v): a time-aware provider built from two matrices of one profile (time stamps 0
+   and 100; the distance 1 -> 0 rises from 10 to 50 at time 100): the inserted stop delays the departure from a later stop past the time
+   stamp, the tour's distance grows by 50, the quote (estimate_leg with the code's time arguments) is 10 *)
+Theorem C20_td_distance_quote_refuted :
+  exists pr, Routing.build [GoalSelTDP.td_m0; GoalSelTDP.td_m1] = Routing.Ok pr /\
+    (match pr with Routing.PAware _ _ => True | _ => False end) /\
+    has_jobs (GoalSelTDP.td_tour pr) = true /\
+    td_leg_estimate (GoalSelTD.td_durD pr) (GoalSelTD.td_distD pr) (GoalSelTDP.td_tour pr) 0 GoalSelTDP.td_x = 10 /\
+    td_total_distance (GoalSelTD.td_distD pr) (td_reschedule (GoalSelTD.td_durD pr) (insert_after (GoalSelTDP.td_tour pr) 0 GoalSelTDP.td_x))
+    - td_total_distance (GoalSelTD.td_distD pr) (GoalSelTDP.td_tour pr) = 50.
+Proof. exact GoalSelTDP.td_distance_quote_differs. Qed.
+
+(* the time-dependent functions over a provider that ignores the time are the functions the exactness theorems are about *)
+Theorem C20_td_time_independent_is_core : forall dur dist t idx x,
+  td_reschedule (fun a b _ => dur a b) t = reschedule dur t /\
+  td_total_distance (fun a b _ => dist a b) t = total_distance dist t /\
+  td_leg_estimate (fun a b _ => dur a b) (fun a b _ => dist a b) t idx x = leg_estimate dist t idx x.
+Proof. exact GoalSelTDP.td_time_independent_is_core. Qed.
